@@ -337,6 +337,97 @@ fn corpus(prop: &str) -> Vec<WsCase> {
     base
 }
 
+/// the 4 fixed workspace shapes (3 files, 2 variants each) of the exhaustive scope
+fn shapes() -> Vec<(Vec<(String, Vec<String>)>, bool)> {
+    let f = |name: &str, vs: &[&str]| (name.to_string(), vs.iter().map(|s| s.to_string()).collect::<Vec<_>>());
+    vec![
+        // S1: a class split over two files with docs, used by a third (shared symbol: open finding applies)
+        (vec![
+            f("f0.lua", &["--- doc of Ca from f0\n---@class (partial) Ca\n---@field x0 integer\nlocal Ca = {}\n\nlocal M = {}\nM.value = 0\nreturn M\n", "---@class (partial) Ca\n---@field y0 string\n\nlocal M = {}\nM.value = 0\nreturn M\n"]),
+            f("f1.lua", &["---@class (partial) Ca\nlocal Ca = {}\n--- method doc f1\nfunction Ca:m1() return 1 end\n", "print(1)\n"]),
+            f("f2.lua", &["---@type Ca\nlocal c2\nprint(c2.x0, c2:m1())\nlocal m = require(\"f0\")\nprint(m.value)\n", "print(2)\n"]),
+        ], false),
+        // S2: disjoint symbols, cross-file requires
+        (vec![
+            f("f0.lua", &["--- doc of Ca0\n---@class Ca0\n---@field x0 integer\nlocal Ca0 = {}\n\nGa0 = 0\n\nlocal M = {}\nM.value = 0\nreturn M\n", "---@alias Al0 string|integer\n\nlocal M = {}\nM.value = 5\nreturn M\n"]),
+            f("lib/f1.lua", &["---@enum En1\nlocal En = { A = 1, B = 2 }\n\n--- global fn doc f1\nfunction Gb1fn() return 1 end\n\nlocal M = {}\nM.value = 1\nreturn M\n", "local M = {}\nM.value = 6\nreturn M\n"]),
+            f("f2.lua", &["local a = require(\"f0\")\nlocal b = require(\"lib.f1\")\nprint(a.value, b.value, Ga0, Gb1fn())\n---@type Ca0\nlocal c\nprint(c.x0)\n", "---@diagnostic disable-next-line: undefined-global\nprint(nope)\n"]),
+        ], false),
+        // S3: parent module next to a child module, strict require paths
+        (vec![
+            f("p/init.lua", &["local M = {}\nM.value = 0\nreturn M\n", "local M = {}\nM.value = 9\nreturn M\n"]),
+            f("p/f1.lua", &["local M = {}\nM.value = 1\nreturn M\n", "local M = {}\nM.value = 8\nreturn M\n"]),
+            f("main.lua", &["local c = require(\"p.f1\")\nlocal d = require(\"p\")\nprint(c.value, d.value)\n", "local c = require(\"p.f1\")\nprint(c.value)\n"]),
+        ], true),
+        // S4: globals, function docs, diagnostics annotations, operators
+        (vec![
+            f("f0.lua", &["--- global fn doc f0\nfunction Ga0fn() return 0 end\n\nGa0 = Ga0 or {}\nGa0.field0 = 0\n", "Ga0 = 1\n"]),
+            f("f1.lua", &["---@class V1\n---@operator add(V1): V1\n\n---@diagnostic disable: unused\nlocal unused1 = 1\nprint(Ga0, Ga0fn())\n", "---@param a integer\n---@return integer\nlocal function lf1(a) return a end\nlf1(1)\n"]),
+            f("f2.lua", &["---@type V1\nlocal v\nlocal w = v + v\nprint(w, Ga0.field0)\n", "print(Ga0)\n"]),
+        ], false),
+    ]
+}
+
+fn sequences<T: Clone>(alphabet: &[T], max_len: usize) -> Vec<Vec<T>> {
+    let mut out = Vec::new();
+    let mut frontier: Vec<Vec<T>> = vec![vec![]];
+    for _ in 0..max_len {
+        let mut next = Vec::new();
+        for h in &frontier {
+            for o in alphabet {
+                let mut h2 = h.clone();
+                h2.push(o.clone());
+                next.push(h2);
+            }
+        }
+        out.extend(next.iter().cloned());
+        frontier = next;
+    }
+    out
+}
+
+/// exhaustive histories over the 4 shapes: C10 ≤ 3 steps over {remove, close, edit} × 3 files; C08 ≤ 4 units over
+/// {re-submit, edit+restore} × 3 files; C09 ≤ 3 steps over {edit, restore, remove, close} × 3 files + reindex
+fn exhaustive_ws(prop: &str) -> Vec<WsCase> {
+    let mut out = Vec::new();
+    for (files, strict) in shapes() {
+        let seqs: Vec<Vec<AOp>> = match prop {
+            "C10" => {
+                let mut al = Vec::new();
+                for i in 0..3 {
+                    al.push(vec![AOp::Remove(i)]);
+                    al.push(vec![AOp::Close(i)]);
+                    al.push(vec![AOp::Update(i, 1)]);
+                }
+                sequences(&al, 3).into_iter().map(|s| s.concat()).filter(|s| s.iter().any(|o| matches!(o, AOp::Remove(_) | AOp::Close(_)))).collect()
+            }
+            "C08" => {
+                let mut al = Vec::new();
+                for i in 0..3 {
+                    al.push(vec![AOp::Resubmit(i)]);
+                    al.push(vec![AOp::Update(i, 1), AOp::Update(i, 0)]);
+                }
+                sequences(&al, 4).into_iter().map(|s| s.concat()).collect()
+            }
+            _ => {
+                let mut al = Vec::new();
+                for i in 0..3 {
+                    al.push(vec![AOp::Update(i, 1)]);
+                    al.push(vec![AOp::Update(i, 0)]);
+                    al.push(vec![AOp::Remove(i)]);
+                    al.push(vec![AOp::Close(i)]);
+                }
+                al.push(vec![AOp::Reindex]);
+                sequences(&al, 3).into_iter().map(|s| { let mut v = s.concat(); v.push(AOp::Reindex); v }).collect()
+            }
+        };
+        for ops in seqs {
+            out.push(WsCase { files: files.clone(), initial: vec![0, 1, 2], ops, probe: None, strict });
+        }
+    }
+    out
+}
+
 pub fn run(args: &Args, report: &mut Report) {
     let prop = args.prop.clone();
     let mut rng = Rng::new(args.seed);
@@ -354,6 +445,11 @@ pub fn run(args: &Args, report: &mut Report) {
             return;
         }
     } else {
+        if args.thorough() {
+            let ex = exhaustive_ws(&prop);
+            report.extra.insert("exhaustive_scope".into(), json!(format!("{} histories: every history over 4 fixed 3-file workspace shapes (split documented class; disjoint symbols with requires; parent + child module, strict; globals/diagnostics/operators) with C10 <= 3 steps of remove/close/edit, C08 <= 4 units of re-submit / edit+restore, C09 <= 3 steps of edit/restore/remove/close/reindex then reindex; plus all DbIndex histories <= 5 steps over submit/remove x 3 files + reindex x 4 contribution shapes", ex.len())));
+            cases.extend(ex);
+        }
         for _ in 0..n_cases {
             cases.push(match prop.as_str() {
                 "C10" => gen_c10(&mut rng),
@@ -423,7 +519,7 @@ pub fn run(args: &Args, report: &mut Report) {
 
     // ties
     module::tie_lifecycle(&mut rng, n_mod, report);
-    dbtie::run(&prop, &mut rng, n_db, report);
+    dbtie::run(&prop, &mut rng, n_db, args.thorough(), report);
     let mut extra: BTreeMap<String, Value> = BTreeMap::new();
     extra.insert("oracle_cases".into(), json!(cases.len()));
     report.extra.extend(extra);
